@@ -13,10 +13,12 @@ def add(pid, text, note, technique, ref, level=MC, engine='tlc+replay'):
 add('C01', "TLC evaluates the TLA+ documented-semantics operator PegSem!Parse on every (grammar, text) of an exhaustive small universe "
     "(all expressions with <=2 operator nodes over 9 leaves) plus seeded random core-language grammars x all texts up to a length bound; "
     "each expected outcome (accept/reject, end offset, AST) is replayed into the real compiled model. Exhaustive within the stated bounds, "
-    "so a change to AST assembly, choice order, repetition, lookahead or whitespace placement that alters any case of the universe is reported.",
+    "so a change to AST assembly, choice order, repetition, lookahead or whitespace placement that alters any case of the universe is reported. "
+    "Code->spec: executions of the real engine recorded through the Tracer seam (enter/ok/fail/cut/match events) are validated by TLC against "
+    "spec/PegTrace.tla (the implementation-shaped machine PegMachine); corrupted copies of the traces must be rejected in the same run.",
     "Trusted: TLC, Python re for catalogue patterns, the projection harness/absgrammar.py (to_ebnf/norm). Shapes the documents leave open "
     "(spec/UNSPECIFIED.md, predicate PegGrammar!Unspecified) are checked for accept/reject and end position only.",
-    "TLA+ spec PegSem evaluated by TLC (exhaustive small universe + seeded random) with spec->code replay into tatsu.compile(...).parse", "5 C01, 3.2")
+    "TLA+ spec PegSem evaluated by TLC (exhaustive small universe + seeded random) with spec->code replay into tatsu.compile(...).parse; recorded engine traces validated against PegTrace/PegMachine", "5 C01, 3.2, 3.5")
 
 add('C02', "For every grammar of the universe TLC evaluates PegSem!Parse; the generated Python source is compiled (valid-Python claim), executed, "
     "and run on every text under the settings matrix {defaults, ignorecase, nameguard off, whitespace override, parseinfo}; its outcome must equal "
@@ -27,21 +29,27 @@ add('C02', "For every grammar of the universe TLC evaluates PegSem!Parse; the ge
     "TLA+ spec PegSem evaluated by TLC + spec->code replay into generated parsers and the model (three-way comparison)", "5 C02, 3.6")
 add('C03', "TLC evaluates PegSem!Parse (seed growing with a dynamic head, docs/left_recursion.rst) on 11 families of layered left-recursive grammars "
     "under all 24 assignments of rule names x every operator/operand string up to the bound; every outcome (accept/reject, end, left-nested AST) "
-    "is replayed into the real model under recursion-limit and wall-clock guards (RecursionError/timeout = violation). Exhaustive within bounds.",
+    "is replayed into the real model under recursion-limit and wall-clock guards (RecursionError/timeout = violation). Exhaustive within bounds. "
+    "Recorded traces of the real engine (seed hits, growth rounds, memo guards) are validated by TLC against PegTrace/PegMachine.",
     "Trusted: TLC, projections. KF-C03-1 (static leader) is recognised by family + name order + direction of the mismatch.",
-    "TLA+ spec PegSem (left-recursion seeds) evaluated by TLC, exhaustive family universe, spec->code replay", "5 C03")
+    "TLA+ spec PegSem (left-recursion seeds) evaluated by TLC, exhaustive family universe, spec->code replay; recorded traces validated against PegTrace/PegMachine", "5 C03, 3.3, 3.5")
 add('C05', "18 skeletons x a cut inserted at every position of every sequence x every text up to the bound: TLC evaluates PegSem!Parse, whose cut scopes "
     "are exactly the docs' equivalences (A->[x] == B->x|e, {x} == B->xB|e, join == e {s ~ e}); each outcome is replayed into the real parser. "
-    "A lost or leaked cut flag changes accept/reject or the end position of some enumerated case. Exhaustive within bounds.",
+    "A lost or leaked cut flag changes accept/reject or the end position of some enumerated case. Exhaustive within bounds. "
+    "Recorded traces (cut events included) of the real engine are validated by TLC against PegTrace/PegMachine.",
     "Trusted: TLC, projections. Groups are treated as transparent for cuts (as C05 lists the scopes).",
-    "TLA+ spec PegSem (cut scopes) evaluated by TLC, exhaustive cut-placement universe, spec->code replay", "5 C05")
+    "TLA+ spec PegSem (cut scopes) evaluated by TLC, exhaustive cut-placement universe, spec->code replay; recorded traces validated against PegTrace/PegMachine", "5 C05, 3.3, 3.5")
 
-add('C04', "Every (grammar, text) of the universe (seeded random grammars with cuts, failing-semantics retry family, left-recursion families, "
-    "cuts inside left-recursive rules, cut placements) is parsed under 12 configurations (memoization off for non-left-recursive grammars, "
-    "perlinememos 0.01/0.5/1/default, prune_memos_on_cut on/off, trace with output discarded, colorize, parseinfo); all outcomes (ok/fail, AST modulo "
-    "parseinfo, error class) must be equal; TLC's PegSem outcome for the same case is the independent reference recorded alongside.",
-    "Trusted: TLC, projections. The memo-schedule dimension is explored through real cache capacities (0.01..default per line), not yet through the "
-    "PegMachine hit/miss nondeterminism.", "TLA+ spec PegSem as reference + configuration-matrix replay (metamorphic agreement)", "5 C04")
+add('C04', "(1) spec/PegMachine.tla is the implementation-shaped small-step machine (frames, memo table, left-recursion seeds, cut flags); at every rule "
+    "call with a memo entry TLC explores both the hit and a forced miss (every eviction schedule up to 2 forced misses), with pruning on cut on/off and "
+    "memoization on/off, and checks Refines (outcome = PegSem!Parse), FramesBalanced, CutContained and StepBound on seeded random grammars with cuts, the "
+    "left-recursion families and cuts inside left-recursive rules; the machine's outcome and value are compared with the real engine on every case. "
+    "(2) Every (grammar, text) of the larger universe is parsed under 12 configurations (memoization off for non-left-recursive grammars, perlinememos "
+    "0.01/0.5/1/default, prune_memos_on_cut on/off, trace with output discarded, colorize, parseinfo); all outcomes (ok/fail, AST modulo parseinfo, error "
+    "class) must be equal. (3) Real executions under tiny memo capacities and with pruning off are recorded and validated by TLC against PegTrace: a memo "
+    "hit is accepted only for a (position, rule) evaluated before with the same result.",
+    "Trusted: TLC, projections. Grammars in the scope of KF-C03-1 (StaticLeaderDeviates) are outside Refines (the machine follows the code there; C03 reports it).",
+    "TLA+ spec PegMachine model-checked by TLC under all memo schedules (Refines PegSem) + configuration-matrix replay + trace validation (PegTrace)", "5 C04, 3.3, 3.5")
 add('C06', "PegSem carries the action family as a behaviour constant (identity, tagging, FailedSemantics on a predicate, raise); TLC evaluates it for "
     "every (grammar, text); model and generated parser are run with 16 concrete semantics objects (10 exception types, _default only, declared "
     "parameters) and compared: value flow, alternatives after FailedSemantics, exception type/object reaching the caller, identity == no semantics, "
